@@ -1,6 +1,7 @@
 package types
 
 import (
+	"crypto/ecdsa"
 	"math/big"
 
 	cmn "github.com/kardiachain/go-kardia/lib/common"
@@ -180,6 +181,13 @@ func VerifC11_G2sender(v *VerifV) {
 		v.Cover("unprotected")
 		recid = vv - 27
 	}
+	if sk == 0 && protected {
+		// the same transaction object presented to a signer of another chain: the sender cached by the
+		// first call must not be returned
+		_, err2 := Sender(NewChainIDSigner(big.NewInt(c+1)), tx)
+		v.Assert(err2 != nil, "C11.tx.accepted-on-another-chain-after-caching")
+		v.Cover("other-chain-after-caching")
+	}
 	v.Assert(R.Sign() > 0 && R.Cmp(verifN) < 0, "C11.tx.r-out-of-range")
 	if sk == 2 {
 		v.Assert(S.Sign() > 0 && S.Cmp(verifN) < 0, "C11.tx.s-out-of-range") // Frontier rules: no low-s requirement
@@ -206,4 +214,50 @@ func VerifC11_G2sender(v *VerifV) {
 		pub, _ := verifStubEcrecover(verifRecoverHash, verifRecoverSig)
 		verifSameBytes(v, addr[:], verifStubKeccak256(pub[1:])[12:], "C11.tx.address-not-from-recovered-key")
 	}
+}
+
+// ---- G2sign: signing then recovering returns the signer ------------------------------------------
+
+var verifSignedDigest []byte
+
+// stub for crypto.Sign: records the digest that is signed and returns a well-formed signature
+// (r = 1, low s = 1, recovery id 0) - the ECDSA arithmetic is not the subject
+func verifStubSign(digest []byte, _ *ecdsa.PrivateKey) ([]byte, error) {
+	verifSignedDigest = append([]byte(nil), digest...)
+	sig := make([]byte, 65)
+	sig[31], sig[63] = 1, 1
+	return sig, nil
+}
+
+// VerifC11_G2sign: SignTx under each signer (chain id symbolic): the signed transaction is
+// accepted by Sender under the same signer, and the digest the key signed is exactly the digest
+// Sender recovers over - otherwise the recovered address is not the signer's.
+func VerifC11_G2sign(v *VerifV) {
+	verifV = v
+	tx := verifSymTx(v)
+	c := v.I64("chainid")
+	v.Assume(c >= 1 && c < 1<<15)
+	var signer Signer = NewChainIDSigner(big.NewInt(c))
+	switch v.Choice("signer", 3) {
+	case 1:
+		signer = HomesteadSigner{}
+	case 2:
+		signer = FrontierSigner{}
+	default:
+		v.Cover("chain-id-signer")
+	}
+	verifSignedDigest, verifRecoverHash = nil, nil
+	signed, err := SignTx(signer, tx, nil)
+	v.Assert(err == nil && signed != nil, "C11.tx.sign-error")
+	if err != nil || signed == nil {
+		return
+	}
+	_, err = Sender(signer, signed)
+	v.Assert(err == nil, "C11.tx.freshly-signed-transaction-rejected")
+	if err != nil {
+		return
+	}
+	v.Assert(len(verifSignedDigest) == 32 && len(verifRecoverHash) == 32, "C11.tx.no-recovery")
+	verifSameBytes(v, verifSignedDigest, verifRecoverHash, "C11.tx.signed-digest-is-not-the-digest-recovered-over")
+	v.Cover("signed-and-recovered")
 }
